@@ -114,6 +114,41 @@ def g_nest(r):
     return "def f() -> int:\n    return " + "a.b" * d + "(" * (d // 3) + ")" * (d // 3) + "\n"
 
 
+INT_EDGE = ["0", "1", "9223372036854775807", "9223372036854775806", "9223372036854775808", "4611686018427387904", "2147483648", "4294967296",
+            "18446744073709551615", "99999999999999999999", "9007199254740993", "63", "64", "65"]
+FLOAT_EDGE = ["1e999", "1e-999", "1e308", "1.7976931348623157e308", "5e-324", "0.0", "1e400", "9223372036854775807.0", "1e19", "0.1"]
+INT_OPS = ["+", "-", "*", "//", "%", "**", "/"]
+
+
+def g_numeric(r):
+    """Programs built around boundary numeric literals in every position that evaluates or re-spells them at compile time:
+    const initialisers (chains, negation), literals in expressions, patterns, indices, slices, ranges."""
+    L = lambda: r.choice(INT_EDGE)
+    F = lambda: r.choice(FLOAT_EDGE)
+    N = lambda: r.choice([L(), "-" + L(), F(), "-" + F(), "(-%s - 1)" % L(), "(-9223372036854775807 - 1)", "9223372036854775807"])
+    k = r.random()
+    if k < 0.35:
+        n = r.randint(1, 4)
+        lines = ["const A0: %s = %s" % (r.choice(["int", "int", "float"]), r.choice([N(), N(), "-9223372036854775807 - 1", "9223372036854775807"]))]
+        for i in range(1, n + 1):
+            prev = "A%d" % r.randrange(i)
+            form = r.choice(["-%s", "%s {op} {n}", "{n} {op} %s", "-(-%s)", "%s {op} %s", "not (%s > {n})", "%s == {n}"])
+            e = form.replace("%s", prev).format(op=r.choice(INT_OPS), n=N())
+            ty = "bool" if ("not" in form or "==" in form) else r.choice(["int", "float"])
+            lines.append("const A%d: %s = %s" % (i, ty, e))
+        return "\n".join(lines) + "\n\n\ndef main() -> None:\n    println(A0)\n"
+    if k < 0.6:
+        e = "%s %s %s" % (N(), r.choice(INT_OPS + ["<", "==", ">="]), N())
+        if r.random() < 0.4:
+            e = "%s %s %s" % (e, r.choice(INT_OPS), N())
+        return "def main() -> None:\n    x = %s\n    println(x)\n" % e
+    if k < 0.7:
+        return "def main() -> None:\n    v = %s\n    match v:\n        %s => println(1)\n        %s => println(2)\n        _ => println(0)\n" % (N(), N(), N())
+    if k < 0.85:
+        return 'def main() -> None:\n    s = "abc"\n    xs = [1, 2, 3]\n    println(s[%s:%s:%s])\n    println(xs[%s])\n    for i in range(%s, %s, %s):\n        println(i)\n' % (N(), N(), N(), N(), N(), N(), N())
+    return "def f(a: int = %s, b: float = %s) -> float:\n    return a * b\n\n\ndef main() -> None:\n    println(f(%s, %s))\n" % (N(), N(), N(), N())
+
+
 def verdict_front(r):
     if "crash" in r:
         return Verdict("violated", "front end aborted the process (exit/signal %s)" % r["crash"])
@@ -164,7 +199,7 @@ def main(tier, seed, replay=None):
     run.rule = ("one evaluation = one UTF-8 input pushed through lex, parse, check, format_source and IrCodegen::try_generate under "
                 "catch_unwind on an 8 MiB stack, with every returned diagnostic checked (non-empty list, start<=end<=len, char boundaries) and "
                 "rendered by format_error, render_miette and compile_error_to_diagnostic; generators: random characters, token soup, "
-                "single accidents applied to valid programs, nesting to depth 150; distinct = (generator, stage outcome vector, diagnostic "
+                "single accidents applied to valid programs, nesting to depth 150, boundary numeric literals in const/expression/pattern/index/range positions; distinct = (generator, stage outcome vector, diagnostic "
                 "count bucket, input hash); non-trivial = input >= 8 bytes")
     run.assumptions = ["nesting depth is capped at 150 (the property's 'fixed generous depth'); stages run on an 8 MiB stack like the CLI main thread",
                        "a per-input watchdog firing is inconclusive, not a violation"]
@@ -186,7 +221,9 @@ def main(tier, seed, replay=None):
     for i in range(n):
         k = rng.random()
         r = random.Random(rng.getrandbits(48))
-        if k < 0.12:
+        if k < 0.04:
+            inputs.append(("numeric", g_numeric(r)))
+        elif k < 0.12:
             inputs.append(("random", g_random(r)))
         elif k < 0.27:
             inputs.append(("soup", g_soup(r)))
